@@ -212,7 +212,7 @@ func Compare(want, got Outcome, tol float64) string {
 // unspecified edges, ambiguous sort, order leaks, inexact float products).
 func OutOfDomain(in *ref.Interp, o Outcome) string {
 	switch {
-	case o.Err == ref.ErrBudget:
+	case o.Err == ref.ErrBudget || in.BudgetHit:
 		return "budget"
 	case in.Unspecified:
 		return "unspecified_edge"
